@@ -30,6 +30,9 @@ def main():
     checks = ALL
     if "--checks" in sys.argv:
         checks = sys.argv[sys.argv.index("--checks") + 1].split(",")
+    if "--skip" in sys.argv:
+        skip = sys.argv[sys.argv.index("--skip") + 1].split(",")
+        checks = [c for c in checks if c not in skip]
     base = "HEAD"
     if "--base" in sys.argv:
         base = sys.argv[sys.argv.index("--base") + 1]
